@@ -3,6 +3,9 @@
 prove       : Props/C07.lean — locality as a theorem about the writer loop: an edit that changes only objects in a
               set A changes the written lines only of the objects whose formatter reads A (frame theorem, unbounded);
               leaf echo: an unchanged leaf formats to its token (from C05's model when present).
+              Props/C07Columns.lean — on C05's model of ValueNode.format: an unchanged leaf is token + padding verbatim;
+              a changed leaf whose new text fits is written in exactly the columns the old text and its blanks
+              occupied (later tokens keep their columns); otherwise one blank follows and no padding item is lost.
 correspond  : the read-sets assumed by the theorem are checked on the real code (which inputs change under which edit).
 judge       : word-level diff (case-insensitive) between the unedited write and the edited write of the same problem,
               per input as MCNP's rules split them: every differing input must be in the property's own `affected`
@@ -23,6 +26,9 @@ THEOREMS = [
     "Local.C07_local",
     "Local.C07_local_history",
     "Local.C07_untouched_verbatim",
+    "C07Columns.C07_leaf_echo",
+    "C07Columns.C07_columns",
+    "C07Columns.C07_columns_grow",
 ]
 
 PER_CELL = ("imp", "vol", "u", "lat", "fill")
@@ -112,6 +118,12 @@ def _ndiff(a, b, renum=()):
         xs, ys = a[i1:i2], b[j1:j2]
         if tag == "replace" and len(xs) == len(ys):
             n += sum(1 for x, y in zip(xs, ys) if not _explained(x, y, renum))
+        elif tag == "replace":
+            # a renumbered reference next to inserted words (`fill 24` -> `fill 36 VOL 10`): the pairs a renumbering
+            # explains, aligned from the left or from the right, do not count
+            left = sum(1 for x, y in zip(xs, ys) if _explained(x, y, renum))
+            right = sum(1 for x, y in zip(reversed(xs), reversed(ys)) if _explained(x, y, renum))
+            n += max(len(xs), len(ys)) - max(left, right)
         else:
             n += max(len(xs), len(ys))
     return n if positional is None else min(n, positional)
